@@ -87,6 +87,8 @@ pub struct Inner {
     pub script_writes: bool,
     pub harness_error: Option<String>,
     pub eof_delivered: bool,
+    /// bytes actually handed over by each Deliver answer (clipped to the offered buffer)
+    pub delivered: Vec<usize>,
 }
 
 impl Inner {
@@ -104,6 +106,7 @@ impl Inner {
                     let n = k.min(buf_len).min(self.inbound.len() - self.pos);
                     let out = self.inbound[self.pos..self.pos + n].to_vec();
                     self.pos += n;
+                    self.delivered.push(n);
                     Some(Ok(out))
                 },
                 Act::ReadFail(k) => Some(Err(io::Error::new(fail_kind(k), "verif: injected transient error"))),
@@ -251,6 +254,9 @@ pub struct RunResult {
     pub finished: bool,
     pub calls_started: usize,
     pub read_caps: Vec<usize>,
+    pub delivered: Vec<usize>,
+    /// tokio: remaining bytes of a keep-alive reply held by the connection (hook)
+    pub unanswered: Option<usize>,
     pub harness_error: Option<String>,
     pub panicked: Option<String>,
 }
@@ -314,6 +320,7 @@ pub fn run(inst: &Instance, hist: &[Act]) -> RunResult {
     }
     out.pos = w.pos;
     out.read_caps = w.read_caps.clone();
+    out.delivered = w.delivered.clone();
     if out.harness_error.is_none() {
         out.harness_error = w.harness_error.clone();
     }
@@ -484,5 +491,6 @@ fn run_tokio(inst: &Instance, hist: &[Act], inner: Arc<Mutex<Inner>>) -> RunResu
     let (b, s) = framed.verif_buffer();
     out.buffer = b.to_vec();
     out.spare = s;
+    out.unanswered = framed.verif_unanswered();
     out
 }
